@@ -99,3 +99,44 @@ PROPS["C07"] = red(["normalise"], r"oracle:C07:",
     "termination of HNO/HSP is decided by the oracle only: planted normal forms must be found by the implementation "
     "under NOR and HNO with limit 0, CBN/HSP must return (w)hnf; a hang or stack overflow is a violation.",
     "; normalise suite as described under C06")
+
+PARSE_TB = [KERNEL, NOAX, TIE_B + "; modelled: src/parser.rs (tokenize_dbr, tokenize_cla, convert_classic_tokens, get_ast, "
+            "fold_exprs, fold_terms, parse) and the Display/Debug implementations of src/term.rs (base26_encode, "
+            "show_precedence_cla, show_precedence_dbr, parenthesize_if)",
+            "character classes: char::is_alphabetic / is_alphanumeric / is_whitespace / to_digit(16) are supplied per "
+            "character by the harness from Rust's std (no Unicode table is re-implemented); for the characters the "
+            "printers emit, Spec.Printing.classify is compared with std on every printed string",
+            ORACLE, OUTSIDE]
+PROPS["C09"] = dict(
+    suites=["parse"], oracle_re=r"oracle:C09:",
+    rule=("all token sequences over {lambda, (, ), 1, 2, 3} up to length 5 (quick) / 7 (thorough) in De Bruijn notation and over "
+          "{lambda a., lambda b., (, ), a, b, c} up to length 4 / 6 in Classic notation, each in a compact and a varied rendering "
+          "(either glyph, ASCII and Unicode whitespace, letter case of hex digits) and, when accepted, wrapped in redundant "
+          "parentheses; printed random terms and single-character mutations of them; random strings over a pool of ASCII, "
+          "Unicode letters/digits/spaces/marks and arbitrary scalar values; non-trivial = accepted by the reference grammar"),
+    trusted_base=PARSE_TB,
+    assumptions=["the Gallina mirror of parser.rs is faithful (differential testing only)",
+                 "the reference grammar of Spec/Grammar.v is the reading of the property text", OUTSIDE,
+                 "native stack exhaustion on deeply nested input is probed (depth 1000 and 20000) but not claimed"],
+    explanation=("PARTIAL proof: the InvalidCharacter clause for De Bruijn notation is a theorem; the main clause "
+                 "(parse = reference parse for every input) is decided by running the reference lexer and recursive-descent "
+                 "parser (Spec/Grammar.v, extracted) and the model against the implementation on the generated inputs."))
+PROPS["C10"] = dict(
+    suites=["print"], oracle_re=r"oracle:C10:", both_glyphs=True, suites_bs=["print"],
+    rule=("every term up to 6 / 7 constructors over indices 0..4, random terms up to 40 constructors, hand-built terms "
+          "with binder depth 25..28, 52, 701..704, 730 and free indices up to 18279 (names of 1, 2, 3 and 4 letters); "
+          "under both settings of the backslash_lambda feature (two builds of the harness); non-trivial = distinct term"),
+    trusted_base=PARSE_TB,
+    assumptions=["the Gallina mirrors of Display and of the parser are faithful (differential testing only)", OUTSIDE],
+    explanation=("PARTIAL proof: Display = reference rendering is a theorem for all terms, depths and both glyphs (incl. "
+                 "base26_encode = bijective base 26 for every n); the round trip parse(Display t) = canon t is decided by "
+                 "running implementation and model on the printed strings."))
+PROPS["C11"] = dict(
+    suites=["print"], oracle_re=r"oracle:C11:", both_glyphs=True, suites_bs=["print"],
+    rule=("every term up to 5 / 6 constructors over indices 0..3, random terms with indices 1..15 (all 15 digits, nested "
+          "operand applications, abstractions in operator position), some terms with indices 0 and above 15 (format "
+          "only); both glyph settings; non-trivial = distinct term with indices in 1..15"),
+    trusted_base=PARSE_TB,
+    assumptions=["the Gallina mirrors of Debug and of the parser are faithful (differential testing only)", OUTSIDE],
+    explanation=("PARTIAL proof: Debug = reference rendering is a theorem for all terms with indices 1..15 and both glyphs; "
+                 "the round trip is decided by running implementation and model on the printed strings."))
